@@ -6,7 +6,9 @@ import (
 	"bytes"
 	"fmt"
 	"log"
+	"mime"
 	"net"
+	"net/mail"
 	"os"
 	"runtime"
 	"strconv"
@@ -86,6 +88,19 @@ func init() {
 		}
 		return Obs{"lines": out}
 	})
+	// mailParse: what net/mail.ParseAddressList + the encoded-word encoding of the display names answer for
+	// a header value (the [mail_parse] parameter of Model/Slicers.v): null = error or empty list
+	calls["c12MailParse"] = func(a []string, n []int) interface{} {
+		list, err := mail.ParseAddressList(a[0])
+		if err != nil || len(list) == 0 {
+			return nil
+		}
+		out := [][]string{}
+		for _, x := range list {
+			out = append(out, []string{bs(mime.QEncoding.Encode("utf-8", x.Name)), bs(x.Address)})
+		}
+		return out
+	}
 	// seqset_calls: {"op":"seqset_calls","user":"u@example.com","mailbox":"INBOX","sets":[...],"uid":bool}
 	// direct calls of utils.ParseSequenceSetWithDB / ParseUIDSequenceSetWithDB against the store of
 	// this scenario, each under recover and timed -> {"rs":[{"n":len,"ms":..}|{"panic":..}]}
